@@ -72,36 +72,70 @@ def _f32(rng):
     return rng.randint(-32, 32) / 1024.0
 
 
-def gen_column(rng, st, n, name, allow_missing=True, train=None):
-    """values of one column; `train` = the training column when generating the evaluation table"""
+# sentinel look-alikes and awkward spellings as category / token names (family 2)
+SPECIAL_CATS = ['-1', 'nan', 'None', '<NA>', '0', ' ', 'A', 'a', 'sports', 'sportswear', 'a\x00', 'É', 'é']
+SPECIAL_TOKENS = ['-1', 'nan', 'None', '0', 'A', 'a', 'sports', 'sportswear', 'É']
+# column names: mixed case, one name a prefix / substring of another, sentinel look-alikes
+SPECIAL_NAMES = ['w', 'W', 'Zeta', 'alpha', 'label', 'label_prev', 'sports', 'sportswear', '-1', 'nan', 'None', '0',
+                 'a b', 'é', 'Z', 'z_', '_z']
+# float64-only payloads of moderate magnitude (the frame is float64 in this process)
+F64_VALUES = [0.1, 1.0 / 3.0, 2.0 ** 24 + 1, 1700000001.0, -0.7, 1e-9]
+EDGE_VALUES = [-1.0, 0.5, 0.0, -0.0, 2.0 ** 24, -2.0 ** 31, 1e-38]
+
+
+def gen_column(rng, st, n, name, allow_missing=True, train=None, opts=None):
+    """values of one column; `train` = the training column when generating the evaluation table; `opts` = the
+    stress options of the case (`ncat` = size of the category vocabulary, `width` = embedding width, `f64` =
+    float64-only values allowed, `special` = sentinel look-alike category names)"""
+    opts = opts or {}
     miss = rng.choice([0.0, 0.2, 0.5]) if allow_missing else 0.0
     col = {'name': name, 'stype': st}
     if st == 'numerical':
         const = rng.random() < 0.12
         c = _f32(rng)
         vals = [None if rng.random() < miss else (c if const else _f32(rng)) for _ in range(n)]
+        if train is None and opts.get('edge') and not const:
+            pool = EDGE_VALUES + (F64_VALUES if opts.get('f64') else [])
+            for _ in range(rng.randint(1, 3)):
+                vals[rng.randrange(n)] = rng.choice(pool)
         if train is None and rng.random() < 0.06:
             vals[rng.randrange(n)] = rng.choice(['inf', '-inf'])
         if all(v is None or isinstance(v, str) for v in vals):
             vals[rng.randrange(n)] = _f32(rng)
     elif st == 'categorical':
         alphabet = rng.choice([['a'], ['a', 'b'], ['a', 'b', 'c', 'd'], ['x', 'y', 'z', 'w', 'v', 'u']])
+        if opts.get('special') and train is None:
+            alphabet = rng.sample(SPECIAL_CATS, rng.randint(2, 6))
+        if opts.get('ncat') and train is None:
+            alphabet = [f'k{i}' for i in range(opts['ncat'])]
         if train is not None:
             alphabet = sorted({v for v in train['values'] if v is not None}) + ['UNSEEN1', 'UNSEEN2']
         vals = [None if rng.random() < miss else rng.choice(alphabet) for _ in range(n)]
+        if opts.get('ncat') and train is None and n >= len(alphabet):
+            pos = rng.sample(range(n), len(alphabet))          # every category of the large vocabulary occurs
+            for q, a in zip(pos, alphabet):
+                vals[q] = a
         if all(v is None for v in vals):
             vals[rng.randrange(n)] = alphabet[0]
     elif st == 'multicategorical':
         alphabet = rng.choice([['p'], ['p', 'q'], ['p', 'q', 'r', 's']])
+        if opts.get('special') and train is None:
+            alphabet = rng.sample(SPECIAL_TOKENS, rng.randint(2, 5))
+        if opts.get('ncat') and train is None:
+            alphabet = [f't{i}' for i in range(opts['ncat'])]
         if train is not None:
+            if opts.get('special') or opts.get('ncat'):
+                alphabet = sorted({t for v in train['values'] if v for t in v.split(',')} or {'p'})
             alphabet = alphabet + ['UNSEEN']
         vals = []
         for _ in range(n):
             if rng.random() < miss:
                 vals.append(None)
             else:
-                k = rng.randint(0, len(alphabet))
-                vals.append(','.join(rng.sample(alphabet, k)))
+                k = rng.randint(0, len(alphabet)) if len(alphabet) <= 8 else rng.choice([0, 1, 2, 5, opts.get('cell', 5)])
+                vals.append(','.join(rng.sample(alphabet, min(k, len(alphabet)))))
+        if opts.get('ncat') and train is None:
+            vals[rng.randrange(n)] = ','.join(alphabet)        # one long cell holding the whole vocabulary
         if all(v is None for v in vals):
             vals[rng.randrange(n)] = alphabet[0]
     elif st == 'timestamp':
@@ -123,7 +157,7 @@ def gen_column(rng, st, n, name, allow_missing=True, train=None):
         if all(v is None for v in vals):
             vals[rng.randrange(n)] = '%04d-06-15 12:30:45' % lo
     else:  # embedding
-        w = rng.randint(1, 4) if train is None else len(train['values'][0])
+        w = (opts.get('width') or rng.randint(1, 4)) if train is None else len(train['values'][0])
         vals = []
         for _ in range(n):
             v = [_f32(rng) for _ in range(w)]
@@ -147,8 +181,16 @@ def gen_post(rng, allow_ln=True):
     return {'t': 'ln'}
 
 
+LM_STYPES = ['numerical', 'categorical', 'timestamp', 'embedding']
+
+
 def gen_encoder(rng, st, force_cls=None):
     na = rng.choice(NA_FOR[st])
+    if force_cls == 'linmodel':
+        # LinearModelEncoder with one stub user model per column; `cfg_seed` fixes the insertion order of the
+        # user's col_to_model_cfg dict (unrelated to the frame's column order) and the models' output widths
+        return {'cls': 'linmodel', 'na': na, 'post': gen_post(rng), 'cfg_seed': rng.randrange(1 << 30),
+                'cfg_order': rng.choice(['shuffled', 'shuffled', 'reversed', 'frame'])}
     if st == 'numerical':
         cls = force_cls or rng.choice(NUM_CLASSES)
         e = {'cls': cls, 'na': na, 'post': gen_post(rng, allow_ln=cls != 'bucket')}
@@ -166,48 +208,146 @@ def gen_encoder(rng, st, force_cls=None):
     return e
 
 
-def gen_batches(rng, n):
+def gen_batches(rng, n, long=None):
     bs = [{'t': 'whole'}, {'t': 'row', 'i': rng.randrange(n)}]
+    if long:                               # a long multiset of the frame's rows (batch-size scale)
+        bs.append(rng.choice([{'t': 'empty_list'}, {'t': 'slice00'}, {'t': 'empty_tensor'}]))
+        bs.append({'t': rng.choice(['list', 'tensor32', 'tensor64']), 'idx': [rng.randrange(n) for _ in range(long)]})
+        return bs
     bs.append(rng.choice([{'t': 'empty_list'}, {'t': 'slice00'}, {'t': 'empty_tensor'}]))
     k = rng.random()
+    # (the index container - list / int64 tensor / int32 tensor / range / boolean mask - is part of "any batch")
     if k < 0.4:
         idx = list(range(n))
         rng.shuffle(idx)
-        bs.append({'t': 'list', 'idx': idx})
+        bs.append({'t': rng.choice(['list', 'list', 'tensor64', 'tensor32']), 'idx': idx})
+    elif k < 0.7:
+        bs.append({'t': rng.choice(['list', 'list', 'tensor64', 'tensor32']),
+                   'idx': [rng.randrange(n) for _ in range(rng.randint(1, n + 2))]})
     elif k < 0.8:
-        bs.append({'t': 'list', 'idx': [rng.randrange(n) for _ in range(rng.randint(1, n + 2))]})
+        mask = [rng.random() < 0.5 for _ in range(n)]
+        bs.append({'t': 'mask', 'mask': mask})
     else:
         a = rng.randint(0, n)
         bs.append({'t': 'slice', 'a': a, 'b': rng.randint(a, n + 1)})
     return bs
 
 
-def gen_case(rng, with_eval=False, force_num_cls=None):
-    n = rng.choice([1, 2, 3, 4, 5, 6, 8, 12])
+ABSENT_OK = {'numerical': ['linear', 'stack', 'periodic', 'excel', 'bucket', 'linmodel'], 'categorical': ['embedding', 'linmodel'],
+             'multicategorical': ['bag', 'linmodel'], 'timestamp': ['timestamp', 'linmodel'], 'embedding': ['linemb', 'linmodel']}
+ALL_CLASSES = ['linear', 'stack', 'bucket', 'periodic', 'excel', 'embedding', 'bag', 'timestamp', 'linemb', 'linmodel']
+CHILD_STYPES = ['text_embedded', 'image_embedded']
+
+
+def gen_extra_keys(rng, present):
+    """family 6: keys of stype_encoder_dict for stypes the dataset has NO column of.  70%: admissible pairings only
+    (must be accepted and change nothing); 30%: one of them is inadmissible - an encoder class that does not support
+    the stype, or a child stype used as key - and construction must raise although the stype is absent"""
+    absent = [s for s in STYPES if s not in present]
+    if not absent:
+        return [], False
+    keys = []
+    for s in rng.sample(absent, rng.randint(1, len(absent))):
+        keys.append({'stype': s, 'cls': rng.choice(ABSENT_OK[s]), 'na': rng.choice(NA_FOR[s]), 'ok': True})
+    bad = rng.random() < 0.3
+    if bad:
+        k = rng.choice(keys)
+        if rng.random() < 0.25 and 'embedding' in absent:
+            k.update(stype=rng.choice(CHILD_STYPES), cls=rng.choice(['linemb', 'linmodel']), na=None, ok=False)
+        else:
+            k.update(cls=rng.choice([c for c in ALL_CLASSES if c not in ABSENT_OK[k['stype']]]), na=None, ok=False)
+    return keys, bad
+
+
+def gen_names(rng, k, special):
+    used = []
+    pool = list(SPECIAL_NAMES)
+    while len(used) < k:
+        if special and pool and rng.random() < 0.7:
+            name = pool.pop(rng.randrange(len(pool)))
+        else:
+            name = rng.choice('abcdefgh') + rng.choice('0123456789') + rng.choice(['', '_x', 'Z'])
+            if k > 40:
+                name += str(rng.randrange(1000))
+        if name not in used:
+            used.append(name)
+    return used
+
+
+def gen_case(rng, with_eval=False, force_num_cls=None, stress=None):
+    """`stress` = None (the small default) or a dict of options drawn by the check:
+    rows / ncols / ncat / width / cell / ch (sizes from the stress ladder), special (sentinel look-alike names and
+    categories), edge / f64 (edge magnitudes, float64-only values), lm (probability of LinearModelEncoder per
+    stype), extra (keys for absent stypes)"""
+    stress = stress or {}
+    n = stress.get('rows') or rng.choice([1, 2, 3, 4, 5, 6, 8, 12])
     present = [s for s in STYPES if rng.random() < 0.65]
     if force_num_cls and 'numerical' not in present:
         present.append('numerical')
     if not present:
         present = [rng.choice(STYPES)]
-    cols, used = [], set()
+    if stress.get('extra') and len(present) == len(STYPES):
+        present.remove(rng.choice([s for s in STYPES if not (force_num_cls and s == 'numerical')]))
+    counts = {st: rng.choice([1, 1, 2, 3]) for st in present}
+    wide = None
+    if stress.get('ncols'):
+        wide = rng.choice(present)
+        counts[wide] = stress['ncols']
+    if stress.get('lm'):
+        for st in present:
+            if st in LM_STYPES and counts[st] == 1 and rng.random() < 0.7:
+                counts[st] = rng.choice([2, 3, 4])          # the column order needs >= 2 columns to be visible
+    big = rng.choice(present) if (stress.get('ncat') or stress.get('width')) else None
+    if stress.get('ncat'):
+        big = rng.choice([s for s in present if s in ('categorical', 'multicategorical')] or [None])
+        if big is None:
+            big = rng.choice(['categorical', 'multicategorical'])
+            present.append(big)
+            counts[big] = rng.choice([1, 2])
+    if stress.get('width'):
+        if 'embedding' not in present:
+            present.append('embedding')
+            counts['embedding'] = rng.choice([1, 2])
+        big = 'embedding'
+    names = gen_names(rng, sum(counts.values()), stress.get('special'))
+    cols = []
     for st in present:
-        for _ in range(rng.choice([1, 1, 2, 3])):
-            while True:
-                name = rng.choice('abcdefgh') + rng.choice('0123456789') + rng.choice(['', '_x', 'Z'])
-                if name not in used:
-                    used.add(name)
-                    break
-            cols.append(gen_column(rng, st, n, name))
+        for j in range(counts[st]):
+            opts = {'special': stress.get('special'), 'edge': stress.get('edge'),
+                    'f64': stress.get('f64') and force_num_cls != 'bucket'}
+            if st == big and j == 0:
+                opts.update(ncat=stress.get('ncat'), width=stress.get('width'), cell=stress.get('cell'))
+            cols.append(gen_column(rng, st, n, names.pop(), opts=opts))
     rng.shuffle(cols)                      # DataFrame column order is unrelated to the canonical order
-    enc = {st: gen_encoder(rng, st, force_num_cls if st == 'numerical' else None) for st in present}
+    enc = {}
+    for st in present:
+        lm = st in LM_STYPES and rng.random() < stress.get('lm', 0.0) and not (force_num_cls and st == 'numerical')
+        enc[st] = gen_encoder(rng, st, 'linmodel' if lm else (force_num_cls if st == 'numerical' else None))
+    if any(isinstance(v, float) and v in F64_VALUES for c in cols if c['stype'] == 'numerical' for v in c['values']) \
+            and enc.get('numerical', {}).get('cls') == 'bucket':
+        for c in cols:                     # LinearBucketEncoder only runs in float32 (see partial_notes)
+            if c['stype'] == 'numerical':
+                c['values'] = [0.5 if isinstance(v, float) and v in F64_VALUES else v for v in c['values']]
     order = list(present)
     rng.shuffle(order)                     # insertion order of stype_encoder_dict
     case = {'kind': 'wise', 'nrows': n, 'cols': cols, 'enc': enc, 'enc_order': order,
-            'ch': rng.choice([1, 2, 3, 4]), 'pseed': rng.randrange(1 << 30), 'batches': gen_batches(rng, n)}
+            'ch': stress.get('ch') or rng.choice([1, 2, 3, 4]), 'pseed': rng.randrange(1 << 30),
+            'batches': gen_batches(rng, n, stress.get('batch'))}
+    if stress.get('extra'):
+        keys, bad = gen_extra_keys(rng, present)
+        if keys:
+            case['extra_keys'] = keys
+            for k in keys:                 # absent keys are interleaved with the present ones in the user's dict
+                case['enc_order'].insert(rng.randint(0, len(case['enc_order'])), '+' + str(keys.index(k)))
+    if stress.get('hist'):
+        case['hist'] = stress['hist']
+    if stress.get('block_dtype'):
+        case['block_dtype'] = stress['block_dtype']
     if with_eval:
         m = rng.choice([1, 2, 3, 5])
         case['eval_nrows'] = m
-        case['eval_cols'] = [gen_column(rng, c['stype'], m, c['name'], train=c) for c in cols]
+        case['eval_cols'] = [gen_column(rng, c['stype'], m, c['name'], train=c,
+                                        opts={'special': stress.get('special'), 'ncat': None}) for c in cols]
     return case
 
 
@@ -265,13 +405,62 @@ def make_post(p, ch):
     return torch.nn.LayerNorm(ch)
 
 
-def make_stype_encoder(e, ch, lazy=True, stats_list=None, stype=None):
+_STUB = {}
+
+
+def stub_class():
+    """the stand-in for a user-supplied model of LinearModelEncoder: tanh(Linear(cell)), cell = the single-column
+    TensorData the encoder hands over ([B, 1, d] tensor, or a one-column MultiEmbeddingTensor)"""
+    if 'cls' not in _STUB:
+        torch = T()['torch']
+
+        class Stub(torch.nn.Module):
+            def __init__(self, d, k):
+                super().__init__()
+                self.lin = torch.nn.Linear(d, k)
+
+            def forward(self, x):
+                if not isinstance(x, torch.Tensor):
+                    x = x.values.unsqueeze(1)
+                return torch.tanh(self.lin(x.to(self.lin.weight.dtype)))
+        _STUB['cls'] = Stub
+    return _STUB['cls']
+
+
+def lm_config(e, stype_name, names, col_stats):
+    """(ordered column names of the user's dict, {name: (d, k)}) for a LinearModelEncoder case"""
+    import random
+    r = random.Random(e['cfg_seed'])
+    order = list(names)
+    if e.get('cfg_order', 'shuffled') == 'shuffled':
+        r.shuffle(order)
+        if order == list(names) and len(order) > 1:
+            order = order[1:] + order[:1]
+    elif e.get('cfg_order') == 'reversed':
+        order.reverse()
+    Stat = T()['Stat']
+    dims = {}
+    for nm in sorted(names):
+        d = {'numerical': 1, 'categorical': 1, 'timestamp': 7}.get(stype_name)
+        if d is None:
+            d = int(col_stats[nm][Stat.EMB_DIM]) if col_stats and nm in col_stats else 2
+        dims[nm] = (d, r.choice([1, 2, 3]))
+    return order, dims
+
+
+def make_stype_encoder(e, ch, lazy=True, stats_list=None, stype=None, names=None, col_stats=None, stype_name=None):
     """the real StypeEncoder; lazy=True gives it only post module / NA strategy (as models do)"""
     E = T()['E']
     kw = dict(post_module=make_post(e['post'], ch), na_strategy=na_of(e['na']))
     if not lazy:
         kw.update(out_channels=ch, stats_list=stats_list, stype=stype)
     cls = e['cls']
+    if cls == 'linmodel':
+        from torch_frame.config import ModelConfig
+        order, dims = lm_config(e, stype_name, names or ['c'], col_stats)
+        Stub = stub_class()
+        cfg = {nm: ModelConfig(model=Stub(*dims[nm]), out_channels=dims[nm][1]) for nm in order}
+        return E.LinearModelEncoder(col_to_model_cfg=cfg, **kw)
     if cls == 'linear':
         return E.LinearEncoder(**kw)
     if cls == 'stack':
@@ -315,13 +504,20 @@ def is_f32(e):
     return e['cls'] == 'bucket'
 
 
-def build(case):
-    """dataset, frame, StypeWiseFeatureEncoder (eval mode, parameters re-drawn)"""
+def build_wise(case, ds, tf):
+    """the StypeWiseFeatureEncoder of the case on the materialized frame (eval mode, parameters re-drawn)"""
     t = T()
     torch, st = t['torch'], t['stype']
-    ds = make_dataset(case)
-    tf = ds.tensor_frame
-    enc_dict = {st(s): make_stype_encoder(case['enc'][s], case['ch']) for s in case['enc_order']}
+    enc_dict = {}
+    for s in case['enc_order']:
+        if s.startswith('+'):              # a key for a stype the dataset has no column of
+            k = case['extra_keys'][int(s[1:])]
+            enc_dict[st(k['stype'])] = make_stype_encoder({'cls': k['cls'], 'na': k['na'], 'post': {'t': 'none'},
+                                                           'n_bins': 2, 'mode': 'mean', 'out_size': 2, 'cfg_seed': 1},
+                                                          case['ch'], stype_name=k['stype'])
+        else:
+            enc_dict[st(s)] = make_stype_encoder(case['enc'][s], case['ch'], names=tf.col_names_dict.get(st(s)),
+                                                 col_stats=ds.col_stats, stype_name=s)
     wise = t['E'].StypeWiseFeatureEncoder(case['ch'], ds.col_stats, tf.col_names_dict, enc_dict)
     gen = torch.Generator().manual_seed(case['pseed'])
     for s in STYPES:
@@ -330,19 +526,64 @@ def build(case):
             randomize(m, case['enc'][s], gen)
             if is_f32(case['enc'][s]):
                 m.float()
-    wise.eval()
+    return wise.eval()
+
+
+def build(case):
+    """dataset, frame, StypeWiseFeatureEncoder (eval mode, parameters re-drawn, the case's history applied)"""
+    ds = make_dataset(case)
+    tf = ds.tensor_frame
+    wise = build_wise(case, ds, tf)
     tf = adapt_frame(case, tf)
+    apply_history(case, tf, wise)
     return ds, tf, wise
+
+
+def apply_history(case, tf, wise):
+    """family 5: earlier calls on the same encoder object before the measured ones"""
+    torch = T()['torch']
+    for h in case.get('hist', []):
+        with torch.no_grad():
+            if h == 'fwd':
+                wise(tf)
+            elif h == 'fwd_row':
+                wise(tf[[0]])
+            elif h == 'fwd_empty':
+                wise(tf[[]])
+            elif h == 'train_fwd':
+                wise.train()
+                wise(tf)
+                wise.eval()
+            elif h == 'train_eval':
+                wise.train()
+                wise.eval()
+            elif h == 'reset':             # reset_parameters(), then the same parameter draw again
+                wise.reset_parameters()            # (a no-op in FeatureEncoder) ...
+                for m in wise.encoder_dict.values():
+                    m.reset_parameters()           # ... so every stype encoder is reset as well
+                gen = torch.Generator().manual_seed(case['pseed'])
+                for s in STYPES:
+                    if s in case['enc']:
+                        randomize(wise.encoder_dict[s], case['enc'][s], gen)
+            else:
+                raise ValueError(h)
 
 
 def adapt_frame(case, tf):
     """LinearBucketEncoder only runs in float32: hand it the (float32-exact) numerical block as float32"""
     e = case['enc'].get('numerical')
+    st = T()['stype']
+    torch = T()['torch']
     if e and is_f32(e):
-        st = T()['stype']
         fd = dict(tf.feat_dict)
         fd[st.numerical] = fd[st.numerical].float()
         tf = T()['tf'].TensorFrame(fd, tf.col_names_dict, tf.y)
+    for s, dt in (case.get('block_dtype') or {}).items():
+        # family 3: the same values in another legal dtype (float32 numbers / int32 indices and calendar values)
+        if st(s) in tf.feat_dict and isinstance(tf.feat_dict[st(s)], torch.Tensor):
+            fd = dict(tf.feat_dict)
+            fd[st(s)] = fd[st(s)].to({'f32': torch.float32, 'i32': torch.int32}[dt])
+            tf = T()['tf'].TensorFrame(fd, tf.col_names_dict, tf.y)
     return tf
 
 
@@ -360,6 +601,12 @@ def select(tf, b):
         return tf[b['i']]
     if k == 'list':
         return tf[list(b['idx'])]
+    if k == 'tensor64':
+        return tf[torch.tensor(b['idx'], dtype=torch.long)]
+    if k == 'tensor32':
+        return tf[torch.tensor(b['idx'], dtype=torch.int32)]
+    if k == 'mask':
+        return tf[torch.tensor(b['mask'], dtype=torch.bool)]
     if k == 'empty_list':
         return tf[[]]
     if k == 'slice00':
@@ -377,8 +624,10 @@ def batch_rows(b, n):
         return list(range(n))
     if k == 'row':
         return [b['i']]
-    if k == 'list':
+    if k in ('list', 'tensor64', 'tensor32'):
         return list(b['idx'])
+    if k == 'mask':
+        return [i for i, v in enumerate(b['mask']) if v]
     if k == 'slice':
         return list(range(n))[b['a']:b['b']]
     return []
@@ -450,6 +699,12 @@ def weights_json(m, e):
         n = len(m.weight_list)
         return {'cls': 'linemb', 'weights': [bits_nested(tol(sd[f'weight_list.{i}'])) for i in range(n)],
                 'biases': bits_nested(tol(sd['biases']))}
+    if cls == 'linmodel':
+        # the dict entries in the insertion order of the user's col_to_model_cfg (= ModuleDict order)
+        return {'cls': 'linmodel', 'cols': [
+            {'name': nm, 'a': bits_nested(tol(mod.lin.weight.t())), 'c': bits_nested(tol(mod.lin.bias)),
+             'weight': bits_nested(tol(m.weight_dict[nm])), 'bias': bits_nested(tol(m.bias_dict[nm]))}
+            for nm, mod in m.model_dict.items()]}
     raise ValueError(cls)
 
 
@@ -522,7 +777,7 @@ def buffers_real(m, e):
     return out
 
 
-def buffers_model(b, e):
+def buffers_model(b, e, s=None):
     """driver `buffers` -> the same canonical form (floats decoded)"""
     out = {}
     fv = b.get('fill_values')
@@ -530,7 +785,7 @@ def buffers_model(b, e):
         out['fill_values'] = None
     elif 'num' in fv:
         out['fill_values'] = {'num': [core.bits_float(x) for x in fv['num']]}
-        if e['cls'] in NUM_CLASSES and e['na'] == 'zeros':
+        if (e['cls'] in NUM_CLASSES or (e['cls'] == 'linmodel' and s == 'numerical')) and e['na'] == 'zeros':
             out['fill_values'] = {'int': [0 for _ in fv['num']]}     # torch.tensor([0, 0, ...]) is an int tensor
     else:
         out['fill_values'] = fv
